@@ -26,7 +26,7 @@ DEFAULT_PROFILE = dict(
     subscript_whole_array_results=True, raise_=True, nested_calls=True,
     persistent_arrays=True, name_pool="plain", zero_trip=True, negative_consts=True,
     dead_code=True, cond_in_call_args=True, bare_power=True, ne_operator=True,
-    pow_of_pow=True, loop_bound_vars=True, fresh_names=False, lookups=False, complex_vars=False, assign_all_state=False, time_advance=True, force_phases=None, extra_kinds=(), zero_arg_calls=True, builtin_set=None, yield_uvec_only=False, matmul_only=False, yield_call_free=False, minmax_loop_counter=True,
+    pow_of_pow=True, loop_bound_vars=True, fresh_names=False, lookups=False, complex_vars=False, assign_all_state=False, time_advance=True, force_phases=None, extra_kinds=(), zero_arg_calls=True, builtin_set=None, yield_uvec_only=False, matmul_only=False, yield_call_free=False, minmax_loop_counter=True, builtin_kwargs=True,
     real_temps=None, uvec_temps=None, arr_temps=None, flag_temps=None, int_temps=None,
 )
 
@@ -86,6 +86,16 @@ class Gen:
         self.INT_TEMPS = self.p["int_temps"] or INT_TEMPS
 
     # ---- small helpers
+    def bcall(self, f, args):
+        """Call of a built-in; with profile builtin_kwargs some trailing arguments are passed by
+        keyword, using the documented argument names."""
+        from vlib.refexec import BUILTIN_ARG_NAMES
+        names = BUILTIN_ARG_NAMES.get(f)
+        if names and self.p["builtin_kwargs"] and self.p["kwargs"] and self.chance(30):
+            k = self.draw(st.integers(0, len(args) - 1)) if len(args) > 1 else 0
+            return ["call", f, list(args[:k]), {names[i]: args[i] for i in range(k, len(args))}]
+        return ["call", f, list(args), {}]
+
     def allowed(self, names):
         bs = self.p["builtin_set"]
         if bs is None:
@@ -249,14 +259,14 @@ class Gen:
             f = self.choice(self.allowed(["<builtin>len", "<builtin>norm_1", "<builtin>norm_inf", "<builtin>dot_product"]))
             if f == "<builtin>dot_product":
                 same = [b for b in arrs if self.defined[b][1] == self.defined[a][1]]
-                return ["call", f, [V(a), V(self.choice(same))], {}]
-            return ["call", f, [V(a)], {}]
+                return self.bcall(f, [V(a), V(self.choice(same))])
+            return self.bcall(f, [V(a)])
         if k == "uvfn":
             u = self.choice(uv)
             f = self.choice(self.allowed(["<builtin>len", "<builtin>norm_1", "<builtin>norm_inf", "<builtin>dot_product"]))
             if f == "<builtin>dot_product":
-                return ["call", f, [V(u), V(self.choice(uv))], {}]
-            return ["call", f, [V(u)], {}]
+                return self.bcall(f, [V(u), V(self.choice(uv))])
+            return self.bcall(f, [V(u)])
         if k == "call":
             self.features.add("nested_call")
             arg = self.real_expr(d)
@@ -288,7 +298,7 @@ class Gen:
         if k == "not":
             return ["not", self.bool_expr(d)]
         if k == "isnan":
-            return ["call", "<builtin>isnan", [V(self.choice(self.names_of(REAL)))], {}]
+            return self.bcall("<builtin>isnan", [V(self.choice(self.names_of(REAL)))])
         raise AssertionError(k)
 
     # ---- complex-valued scalars (kind-inference profiles only; the exact reference cannot run them)
@@ -385,7 +395,7 @@ class Gen:
                     terms.append(self.uvec_expr(depth - 1))
             return normal(["sum"] + terms)
         if k == "abs":
-            return ["call", "<builtin>elementwise_abs", [self.uvec_expr(depth - 1)], {}]
+            return self.bcall("<builtin>elementwise_abs", [self.uvec_expr(depth - 1)])
         if k == "call":
             self.features.add("nested_call")
             t = self.real_expr(0)
@@ -607,7 +617,8 @@ class Gen:
             cols = self.choice([c for c in range(1, n + 1) if n % c == 0])
             self.define(name, ["arr", n])
             self.features.add("matmul")
-            return [["call", [name], "<builtin>transpose", [V(src), C(cols)], {}]]
+            c_ = self.bcall("<builtin>transpose", [V(src), C(cols)])
+            return [["call", [name], c_[1], c_[2], c_[3]]]
         # matmul: a is (ra x ca), b is (ca x cb)
         same = [a for a in arrs if self.defined[a][1] == n]
         other = self.choice(same)
@@ -619,7 +630,8 @@ class Gen:
             return []
         self.define(name, ["arr", n])
         self.features.add("matmul")
-        return [["call", [name], "<builtin>matmul", [V(src), V(other), C(c), C(c)], {}]]
+        c_ = self.bcall("<builtin>matmul", [V(src), V(other), C(c), C(c)])
+        return [["call", [name], c_[1], c_[2], c_[3]]]
 
     def op_call_stmt(self):
         if not self.p["calls"]:
